@@ -22,6 +22,7 @@ def gen_cases(seed, tier):
         modes = {s: rng.choice(["binomial", "binomial", "perfect", "duplicate"]) for s in SPECIES}
         cases.append({"family": "partition", "splitter": kind, "modes": modes, "vmode": rng.choice(["binomial", "duplicate", "perfect"]), "noise": rng.choice([0.0, 0.1, 0.3, 0.5]),
                       "x": [float(rng.randint(0, 30)) for _ in SPECIES], "V": rng.choice([0.5, 1.0, 2.0, 3.7]), "seed": rng.randint(1, 2**31)})
+        if kind == "general" and rng.random() < 0.4: cases[-1]["reconfigured"] = rng.choice(["perfect", "duplicate"])
         # fractional amounts (tracers, rule-written values) in binomial / duplicated species: conserved resp. copied all the same (S2_C19)
         if rng.random() < 0.3:
             c = cases[-1]
@@ -52,6 +53,11 @@ def _partition_impl(case):
     if case["splitter"] == "perfectbinomial": sp = PerfectBinomialVolumeSplitter()
     elif case["splitter"] == "general":
         sp = GeneralVolumeSplitter(); opts = {"perfect": [s for s in SPECIES if case["modes"][s] == "perfect"], "duplicate": [s for s in SPECIES if case["modes"][s] == "duplicate"]}
+        if case.get("reconfigured"):
+            # the splitter object had another configuration before (everything perfect, or everything duplicated); the second call
+            # leaves out the keys whose lists are empty (seeded change S6_C19: a list survived when its key was absent)
+            sp.py_set_partitioning({case["reconfigured"]: list(SPECIES)}, M)
+            opts = {k_: v_ for k_, v_ in opts.items() if v_}
         sp.py_set_partitioning(opts, M); sp.py_set_partition_noise(case["noise"])
     else:
         opts = dict(case["modes"]); opts["volume"] = case["vmode"]
